@@ -8,6 +8,16 @@ TB = ('rustc nightly front-end/MIR construction; the grmfacts driver (/verif/dri
       'calls taking only shared references are treated as pure functions of their arguments')
 
 CHECKS = {
+    'C02': dict(
+        level='other',
+        text='Merging discipline of the Pager construction: a changing weak merge discards the closed form of exactly the merged '
+             'state and re-queues it; exact equality of candidates is tried before weak compatibility; weakly_compatible '
+             'implements Pager\'s three conditions (all 16 valuations of the four look-ahead intersections enumerated) after '
+             'checking equal cores; garbage collection precedes graph construction.',
+        note='Necessary conditions only: equivalence with canonical LR(1) on every input and "never more states than canonical" '
+             'need an independent construction and are NOT decided. Trusted: ' + TB,
+        technique='path-table extraction (exhaustive over the 4 intersection atoms), dominance and reachability over MIR',
+        ref='§4 C02'),
     'C03': dict(
         level='proof',
         text='Finite decision tables are read back out of the compiler\'s MIR by exhaustive path enumeration and '
@@ -108,6 +118,18 @@ CHECKS = {
              'One known finding (array nesting recursion). Trusted: ' + TB,
         technique='per-loop cursor-progress analysis on MIR (symbolic cycle enumeration + interprocedural return-path evaluation), deny-list value-flow for unwrap, call-graph SCCs',
         ref='§4 C12, §3 A6'),
+    'C14': dict(
+        level='proof',
+        text='Induction over the type closure: every workspace type reachable from YaccGrammar / StateTable has both codec impls, '
+             'each stemming from the derive macro of the same name; the derived writer writes every field with the codec of '
+             'its own type (no skip / with); the same wincode configuration type is selected for writing and reading per '
+             'SerialisationFormat variant, for grammar and table alike. Thorough tier: the read side is taken from the MIR of '
+             'every generated parser in the repository, and rustc itself witnesses the codec bounds for u8/u16/u32 x both '
+             'configurations and the privacy of the fields (compile_fail doc-tests with compiling twins).',
+        note='Proof relative to the trusted base: wincode\'s derive macros and primitive/Box<[T]>/Option/String/tuple codecs, and the '
+             'codecs shipped by vob, sparsevec, packedvec. ' + TB,
+        technique='codec-closure check over type-checked ADTs/impls (derive provenance from expansion data), derived-writer field coverage in MIR, type-level compile_fail witnesses',
+        ref='§4 C14'),
     'C15': dict(
         level='other',
         text='Every call that starts iterating a std HashMap/HashSet whose hasher type parameter is RandomState (read from '
